@@ -49,7 +49,8 @@ func c09predict(kind string, b []byte) ([]byte, bool) {
 		if g.Major != refcbor.Array || len(g.Kids) != 3 {
 			return nil, false
 		}
-		out := []byte{0x83}
+		// (the head of the entry as the sender wrote it: the property allows no difference there)
+		out := append([]byte{}, b[g.Start:g.Kids[0].Start]...)
 		out = append(out, raw(g.Kids[0])...)
 		out = append(out, raw(g.Kids[1])...)
 		return append(out, shortestItem(g.Kids[2])...), true
@@ -63,12 +64,12 @@ func c09predict(kind string, b []byte) ([]byte, bool) {
 				return nil, false
 			}
 			a = n.Kids[0]
-			out = []byte{0xd2}
+			out = append(out, b[n.Start:a.Start]...)
 		}
 		if a.Major != refcbor.Array || len(a.Kids) != 4 {
 			return nil, false
 		}
-		out = append(out, 0x84)
+		out = append(out, b[a.Start:a.Kids[0].Start]...)
 		out = append(out, raw(a.Kids[0])...)
 		out = append(out, raw(a.Kids[1])...)
 		out = append(out, shortestItem(a.Kids[2])...)
@@ -81,7 +82,7 @@ func c09predict(kind string, b []byte) ([]byte, bool) {
 		if a.Major != refcbor.Array || len(a.Kids) != 4 || a.Kids[3].Major != refcbor.Array {
 			return nil, false
 		}
-		out := []byte{0xd8, 0x62, 0x84}
+		out := append([]byte{}, b[n.Start:a.Kids[0].Start]...)
 		out = append(out, raw(a.Kids[0])...)
 		out = append(out, raw(a.Kids[1])...)
 		out = append(out, shortestItem(a.Kids[2])...)
@@ -355,6 +356,38 @@ func runC09(c *Ctx) {
 			if b, _, ok := gen.ApplyFault(t, r.Intn(ns), op, r); ok {
 				inn := map[string]any{"base": bi, "kind": kind, "op": op, "wire": mon.FullHex(b), "nesting": "mutant"}
 				c09one(rec, kind, "mutant:"+op, b, nil, inn)
+			}
+		}
+		// every array head of the message, one at a time, in each wider spelling (the message itself, the
+		// signatures array, each COSE_Signature entry, countersignatures in headers, array-valued parameters):
+		// whatever the decoder accepts of these must come out as it came in
+		nArr := 0
+		for si, site := range t.Sites() {
+			if site.N.Major != refcbor.Array || site.N.Indef {
+				continue
+			}
+			nArr++
+			for _, wd := range []int{2, 3, 5, 9} {
+				cl := t.Clone()
+				cs := cl.Sites()
+				if si >= len(cs) || cs[si].N.Major != refcbor.Array {
+					break
+				}
+				cs[si].N.Width = wd
+				var b []byte
+				func() {
+					defer func() { recover() }()
+					b = cl.Seal()
+				}()
+				if len(b) == 0 {
+					continue
+				}
+				inn := map[string]any{"base": bi, "kind": kind, "op": fmt.Sprintf("array-head-width-%d at %s", wd, site.Path), "wire": mon.FullHex(b), "nesting": "mutant"}
+				c09one(rec, kind, "mutant:array-head-width", b, nil, inn)
+				rec.Event("array-head-width-variants")
+			}
+			if nArr >= 12 {
+				break
 			}
 		}
 	})
